@@ -62,6 +62,9 @@ def strategy():
         "f": st.sampled_from([False, False, False, True]),
         "n": st.sampled_from([1, 2, 4]),
         "level": st.integers(1, 9),
+        # standard error that cannot be written (closed, or a full device): a due warning then becomes a fatal error,
+        # and a fatal error must not cost any existing file (only used with a single operand)
+        "stderr": st.sampled_from(["pipe", "pipe", "pipe", "pipe", "closed", "full"]),
     })
 
 
@@ -180,10 +183,28 @@ def make_eval(exe):
                 if c[fl]:
                     argv.append("-" + fl)
             argv += ["--"] + [o["name"] for o in c["ops"]]
-            r = core.run(argv, cwd=td, timeout=120)
-            bad = check(td, c, facts, exp, r)
+            se = c.get("stderr", "pipe") if len(c["ops"]) == 1 else "pipe"
+            if se == "pipe":
+                r = core.run(argv, cwd=td, timeout=120)
+                bad = check(td, c, facts, exp, r)
+            else:
+                before = snapshot_dir(td)
+                r = run_unwritable_stderr(argv, td, se)
+                if any(e["warn"] for e in exp):
+                    bad = None
+                    if r.rc != 1:
+                        bad = "standard error is unwritable (%s) and a warning is due: exit status %s, expected 1" % (se, r.rc)
+                    elif snapshot_dir(td) != before:
+                        bad = "standard error is unwritable (%s) and a warning is due: the directory changed: %s -> %s" % (
+                            se, sorted(before), sorted(snapshot_dir(td)))
+                    elif r.out:
+                        bad = "wrote %d bytes to stdout before failing on the warning" % len(r.out)
+                else:
+                    bad = check(td, c, facts, exp, r)
         nontriv = any(e["action"] == "process" or e["why"] != "missing" for e in exp)
         labels = ["decompress" if c["decompress"] else "compress"] + ["-" + fl for fl in "kctf" if c[fl]]
+        if len(c["ops"]) == 1 and c.get("stderr", "pipe") != "pipe":
+            labels.append("stderr-" + c["stderr"])
         for o, e in zip(c["ops"], exp):
             labels.append("type=" + o["type"])
             labels.append("skip:" + e["why"] if e["action"] == "skip" else "processed")
@@ -202,6 +223,39 @@ def make_eval(exe):
             return f
         return None
     return ev
+
+
+def snapshot_dir(td):
+    snap = {}
+    for n in os.listdir(td):
+        p = os.path.join(td, n)
+        s = os.lstat(p)
+        if stat.S_ISREG(s.st_mode):
+            with open(p, "rb") as f:
+                snap[n] = (s.st_ino, stat.S_IMODE(s.st_mode), s.st_mtime_ns, f.read())
+        else:
+            snap[n] = (s.st_ino, stat.S_IFMT(s.st_mode))
+    return snap
+
+
+def run_unwritable_stderr(argv, td, how):
+    import subprocess
+    e = dict(core.BASE_ENV)
+    if how == "full":
+        se = open("/dev/full", "wb")
+        p = subprocess.Popen(argv, cwd=td, env=e, stdin=subprocess.DEVNULL, stdout=subprocess.PIPE, stderr=se)
+        se.close()
+    else:
+        p = subprocess.Popen(argv, cwd=td, env=e, stdin=subprocess.DEVNULL, stdout=subprocess.PIPE,
+                             preexec_fn=lambda: os.close(2))
+    try:
+        out, _ = p.communicate(timeout=120)
+        to = False
+    except subprocess.TimeoutExpired:
+        p.kill()
+        out, _ = p.communicate()
+        to = True
+    return core.Res(p.returncode, out or b"", b"", to, 0.0)
 
 
 def check(td, c, facts, exp, r):
